@@ -56,9 +56,9 @@ emit(os.path.join(T, "P_C07.v"), r'''* C07  No memory errors, and limit overruns
   /\ (forall v, length (edg g v) <= n)
   /\ g_next g <= cap_of g'''),
  ("C07_every_step_keeps_the_invariant", "step_inv", r'''forall n g o,
-  Inv n g -> cpre n g o -> exists g' r, step n g o = Ok (g', r) /\ Inv n g''''),
+  Inv n g -> cpre n g o -> exists g' r, step n g o = Ok (g', r) /\ Inv n g' '''),
  ("C07_capacity_never_changes", "step_shape", r'''forall n g o g' r,
-  step n g o = Ok (g', r) -> same_shape g g''''),
+  step n g o = Ok (g', r) -> same_shape g g' '''),
  r'''
 (** non-vacuity: the three overruns on concrete graphs *)
 Example C07_example_id : step 2 (op_empty 4) (OAdd 4) = Panic PBoundary.
